@@ -370,17 +370,25 @@ def rule_dispatch_transparent(ctx: Ctx, out: Collector) -> None:
         extra = [x for x in c.args if not isinstance(x, ast.Starred)] + [k for k in c.keywords if k.arg is not None]
         if stars != [va] or kws != [kw] or extra:
             problems.append(f'{ev.text(70)}: arguments are not exactly (*{va}, **{kw})')
-    # value returned unchanged: every leaf's value is assigned to the returned variable
-    rets = [n for n in ast.walk(unit.node) if isinstance(n, ast.Return) and n.value is not None]
-    if len(rets) != 1 or not isinstance(rets[0].value, ast.Name):
-        problems.append('run_node does not return a single result variable')
-    else:
-        rv = rets[0].value.id
-        for n in ast.walk(unit.node):
-            if isinstance(n, ast.Assign) and any(isinstance(t, ast.Name) and t.id == rv for t in n.targets):
-                v = n.value.value if isinstance(n.value, ast.Await) else n.value
-                if not isinstance(v, ast.Call):
-                    problems.append(f'{rv} is assigned {unparse(n.value)[:50]}, not the body\'s value')
+    # value returned unchanged: what run_node returns is, on every path, the (awaited) value of a dispatch leaf itself
+    from ..engine import resolve_all
+    rets = [n for n in FuncEnv.of(ctx.p, unit).own_nodes() if isinstance(n, ast.Return)]
+    returned = set()
+    for r in rets:
+        if r.value is None:
+            problems.append('run_node has a bare return: the body\'s value is lost')
+            continue
+        for e, i in resolve_all(ctx.p, r.value, g.root_inst):
+            v = e.value if isinstance(e, ast.Await) else e
+            if isinstance(v, ast.Call) and any(v is ev.node for ev, role in leaves):
+                returned.add(id(v))
+            else:
+                problems.append(f'run_node returns {unparse(e)[:50]}, not the body\'s value')
+    if not rets:
+        problems.append('run_node never returns the body\'s value')
+    for ev, role in leaves:
+        if id(ev.node) not in returned and rets:
+            problems.append(f'the value of {ev.text(50)} is not what run_node returns')
     cons = f'{unit.module.name}::{unit.qualname}::all dispatch leaves pass (*args, **kwargs) and return the value unchanged'
     if not problems:
         out.ok('EX-5', cons, ctx.p.loc(unit, unit.node), f'{len(leaves)} leaves: coroutine, inline, executor')
